@@ -628,6 +628,136 @@ fn check_texts_and_views(c: &mut Ctx, fl: &mut Fails, tl: &mut Tally, u: &NaiveD
     }
 }
 
+/// second audit (2026-09-30): `date_naive` / deprecated `date`, the `From` conversions between `DateTime<Utc>` and
+/// `DateTime<FixedOffset>`, `and_utc`, `and_local_timezone`, deprecated `from_utc` / `from_local`, `DateTime ± Days`,
+/// and the shape of the derived `Ord` / `Hash` of `NaiveDateTime` (date first, then time; `yof, secs, frac`):
+/// correspondence ops `znf.dn / conv / fromlocal / daysop / ordshape` + direct oracles
+#[allow(deprecated)]
+fn check_conversions(c: &mut Ctx, fl: &mut Fails, tl: &mut Tally, u: &NaiveDateTime, off: i32) {
+    let z = mk_z(u, off);
+    let w = wall_of(inst(u) + off as i64);
+    let headroom = w.n < min_day() || w.n > max_day();
+    let key = format!("{} {off}", enc_n(u));
+    // ---- date_naive / date: the wall-clock DATE; panics exactly in the headroom day
+    let dn = guard(|| z.date_naive());
+    let dd = guard(|| { let d = z.date(); (d.naive_utc(), d.offset().local_minus_utc() as i64) });
+    let show_dn = match &dn { Ok(d) => yof(d).to_string(), Err(()) => "panic".into() };
+    let show_dd = match &dd { Ok((d, o)) => format!("{} {o}", yof(d)), Err(()) => "panic".into() };
+    c.op(&format!("znf.dn {key}"), &format!("{show_dn} | {show_dd}"));
+    tl.add(if headroom { "date_naive:wall-clock-in-headroom (panic demanded)" } else { "date_naive:wall-clock-in-range" });
+    match (&dn, &dd) {
+        (Err(()), Err(())) if headroom => {}
+        (Ok(d), Ok((d2, o2))) if !headroom => {
+            let n = day_num(d.year() as i64, d.month() as i64, d.day() as i64);
+            if n != w.n || d2 != d || *o2 != off as i64 || (d.year() as i64, d.month() as i64, d.day() as i64) != (w.y, w.m, w.d) {
+                fl.hit(c, "date_naive / date is not the date of the wall clock (instant + offset)", &format!("znf.dn {key} -> {show_dn} | {show_dd} expected day {} = {}-{}-{}", w.n, w.y, w.m, w.d));
+            }
+        }
+        _ => fl.hit(c, "date_naive / date must panic exactly when the wall-clock date lies in a headroom day", &format!("znf.dn {key} -> {show_dn} | {show_dd} (headroom: {headroom})")),
+    }
+    // ---- From<DateTime<Utc>> for DateTime<FixedOffset>, the reverse, and_utc, deprecated from_utc
+    let zu0: DateTime<Utc> = Utc.from_utc_datetime(u);
+    let f_from_u = guard(|| DateTime::<FixedOffset>::from(zu0));
+    let u_from_f: DateTime<Utc> = DateTime::<Utc>::from(z);
+    let au = u.and_utc();
+    let fu = DateTime::<FixedOffset>::from_utc(*u, fo(off));
+    c.op(&format!("znf.conv {key}"), &format!("{} | {} | {} | {}", match &f_from_u { Ok(v) => enc_z(v), Err(()) => "panic".into() }, enc_z(&u_from_f), enc_z(&au), enc_z(&fu)));
+    let conv_ok = matches!(&f_from_u, Ok(v) if v.naive_utc() == *u && off_of(v) == 0 && *v == z && v.cmp(&z.with_timezone(&fo(0))) == std::cmp::Ordering::Equal && hash_words(v) == hash_words(&z))
+        && u_from_f.naive_utc() == *u && off_of(&u_from_f) == 0 && u_from_f == z && hash_words(&u_from_f) == hash_words(&z)
+        && au.naive_utc() == *u && off_of(&au) == 0 && au == z && guard(|| au.naive_local()) == Ok(*u)
+        && fu.naive_utc() == *u && off_of(&fu) == off as i64 && fu == z
+        && hash_words(&z) == hash_words(u);
+    if !conv_ok {
+        fl.hit(c, "From<DateTime<Utc>> / From<DateTime<FixedOffset>> / and_utc / DateTime::from_utc changed the instant, the zone, equality or the hash", &format!("znf.conv {key}"));
+    }
+    // ---- the same naive reading as a WALL CLOCK at `off`: and_local_timezone, deprecated (panicking) from_local
+    let alt = guard(|| lr(u.and_local_timezone(fo(off))).map_err(|_| ())).and_then(|x| x);
+    let flp = guard(|| DateTime::<FixedOffset>::from_local(*u, fo(off)));
+    c.op(&format!("znf.fromlocal {key}"), &format!("{} | {}", show_oz(&alt), match &flp { Ok(v) => enc_z(v), Err(()) => "panic".into() }));
+    let keyl = format!("znf.fromlocal {key}");
+    check_from_local(c, fl, tl, u, off, &alt);
+    let ut = inst(u) - off as i64;
+    let un = ut.div_euclid(86_400) + EPOCH;
+    let utc_ok = min_day() <= un && un <= max_day();
+    tl.add(if utc_ok { "from_local(deprecated):value" } else { "from_local(deprecated):panic demanded (UTC reading leaves the range)" });
+    match (&flp, &alt) {
+        (Err(()), Ok(None)) if !utc_ok => {}
+        (Ok(v), Ok(Some(a))) if utc_ok => {
+            if v.naive_utc() != a.naive_utc() || off_of(v) != off as i64 || inst(&v.naive_utc()) != ut || guard(|| v.naive_local()) != Ok(*u) {
+                fl.hit(c, "DateTime::from_local is not the value whose wall clock is the given reading", &keyl);
+            }
+        }
+        _ => fl.hit(c, "DateTime::from_local must panic exactly when wall clock - offset leaves the range, and_local_timezone must then be None", &format!("{keyl} (UTC reading in range: {utc_ok})")),
+    }
+    // ---- DateTime + Days / - Days: `expect` of the checked form, judged by the independent rule
+    let add = c.rng.chance(1, 2);
+    let un0 = inst(u).div_euclid(86_400) + EPOCH;
+    let dist = if add { max_day() - un0 } else { un0 - min_day() };
+    let n: u64 = match c.rng.below(5) {
+        0 => c.rng.below(3),
+        1 | 2 => (dist + c.rng.range(-2, 2)).max(0) as u64,
+        3 => *c.rng.pick(&[i32::MAX as u64, u32::MAX as u64, u64::MAX, 1 << 40]),
+        _ => c.rng.below(800),
+    };
+    let rop = guard(|| if add { z + Days::new(n) } else { z - Days::new(n) });
+    let rck = guard(|| if add { z.checked_add_days(Days::new(n)) } else { z.checked_sub_days(Days::new(n)) });
+    let keyd = format!("znf.daysop {} {key} {n}", if add { "add" } else { "sub" });
+    c.op(&keyd, &match &rop { Ok(v) => enc_z(v), Err(()) => "panic".into() });
+    tl.add(if rop.is_ok() { "DateTime +- Days:value" } else { "DateTime +- Days:panic" });
+    let as_opt: Result<Option<DateTime<FixedOffset>>, ()> = Ok(rop.clone().ok());
+    rule_oracle_days(c, fl, tl, &keyd, u, off, add, n, &as_opt);
+    if rck.as_ref().map(|o| o.map(|v| (v.naive_utc(), off_of(&v)))) != Ok(rop.as_ref().ok().map(|v| (v.naive_utc(), off_of(v)))) {
+        fl.hit(c, "DateTime +- Days is not `expect` of checked_add_days / checked_sub_days", &keyd);
+    }
+    if let Ok(v) = &rop {
+        // the wall clock moved by exactly n days (time of day and offset kept)
+        let w2 = wall_of(inst(&v.naive_utc()) + off as i64);
+        let dn2 = if add { w.n + n as i64 } else { w.n - n as i64 };
+        if w2.n != dn2 || w2.sod != w.sod || v.naive_utc().time().nanosecond() != u.time().nanosecond() {
+            fl.hit(c, "DateTime +- Days did not move the wall clock by whole days", &keyd);
+        }
+    }
+}
+
+/// the derived `Ord` / `Hash` of `NaiveDateTime` (on which eq / ord / hash of `DateTime` rest): DATE first, then TIME
+/// (seconds, then the nanosecond field); hash words `yof, secs, frac` in this order.  A swapped field order or a
+/// hand-written impl would leave every source pin of a function body unchanged — this oracle would notice.
+fn check_ord_shape(c: &mut Ctx, fl: &mut Fails, tl: &mut Tally) {
+    use std::cmp::Ordering;
+    let d1 = gen_day(c);
+    let mut d2 = gen_day(c);
+    if d2 == d1 {
+        d2 = d1.succ_opt().or(d1.pred_opt()).unwrap();
+    }
+    let (s1, s2) = (c.rng.below(86_400) as u32, c.rng.below(86_400) as u32);
+    let (f1, f2) = (gen_frac(c), gen_frac(c));
+    let sign = |o: Ordering| match o { Ordering::Less => -1i64, Ordering::Equal => 0, Ordering::Greater => 1 };
+    // (a) differ in the date only, with the times ordered the OTHER way; (b) same date, seconds differ, fractions the
+    // other way; (c) same date and second, fractions differ
+    let day_of = |d: &NaiveDate| day_num(d.year() as i64, d.month() as i64, d.day() as i64);
+    let (lo_d, hi_d) = if day_of(&d1) < day_of(&d2) { (d1, d2) } else { (d2, d1) };
+    let (lo_s, hi_s) = (s1.min(s2), s1.max(s2));
+    let (lo_f, hi_f) = (f1.min(f2), f1.max(f2));
+    let cases = [
+        (mk_n(lo_d, hi_s, hi_f), mk_n(hi_d, lo_s, lo_f), -1i64, "date decides before time"),
+        (mk_n(d1, lo_s, hi_f), mk_n(d1, hi_s, lo_f), if lo_s == hi_s { if hi_f == lo_f { 0 } else { 1 } } else { -1 }, "second decides before the nanosecond field"),
+        (mk_n(d1, s1, lo_f), mk_n(d1, s1, hi_f), if lo_f == hi_f { 0 } else { -1 }, "nanosecond field decides last"),
+    ];
+    for (a, b, want, what) in cases {
+        let got = sign(a.cmp(&b));
+        let (za, zb) = (mk_z(&a, gen_off(c)), mk_z(&b, gen_off(c)));
+        let hw = hash_words(&a);
+        c.op(&format!("znf.ordshape {} {}", enc_n(&a), enc_n(&b)), &format!("{got} | {}", join(&hw)));
+        tl.add("ord/hash shape of NaiveDateTime (date, then second, then nanosecond field)");
+        let (ra, _) = (raw_n(&a), ());
+        if got != want || sign(b.cmp(&a)) != -want || sign(za.cmp(&zb)) != want || a.partial_cmp(&b).map(sign) != Some(want) || (a == b) != (want == 0) || (za == zb) != (want == 0)
+            || hw != vec![ra.0, ra.1, ra.2] || hash_words(&za) != hw
+        {
+            fl.hit(c, "derived Ord / Hash of NaiveDateTime (hence of DateTime) is not: date first, then second, then nanosecond field", &format!("znf.ordshape {} {} ({what}): cmp {got} expected {want}, hash {}", enc_n(&a), enc_n(&b), join(&hw)));
+        }
+    }
+}
+
 pub fn run(c: &mut Ctx) {
     crate::aliases::c04(c);
     let mut fl = Fails(BTreeMap::new());
@@ -1190,6 +1320,12 @@ pub fn run(c: &mut Ctx) {
             gen_value(c)
         };
         check_texts_and_views(c, &mut fl, &mut tl, &u, off);
+        if k % 3 == 0 || k < 64 {
+            check_conversions(c, &mut fl, &mut tl, &u, off);
+        }
+        if k % 16 == 0 {
+            check_ord_shape(c, &mut fl, &mut tl);
+        }
         if k < 2 {
             c.sample(&format!("znf.text {} {off} -> {}", enc_n(&u), mk_z(&u, off)));
         }
